@@ -14,6 +14,14 @@ def cases(tier, seed):
                 for d in ((1, 2) if tier != "quick" else (2,)):
                     for kmeans0 in ((True, False) if (n + k) % 2 == 0 or tier != "quick" else (True,)):
                         yield dict(n=n, k=k, strategy=strategy, d=d, kmeans0=kmeans0, seed=seed)
+    # 'gain' on the part of the domain where the unchanged code keeps the sizes (n mod k <= 1): few iterations, so that the labels
+    # of an early association pass are the ones returned (transfer lists, swaps with a partner that has already moved)
+    for j in range(240 if tier == "quick" else 2400):
+        rs = numpy.random.RandomState(1000 * seed + j)
+        k = int(rs.randint(3, 7))
+        n = k * int(rs.randint(2, 8)) + int(rs.randint(0, 2))
+        yield dict(n=n, k=k, strategy="gain", d=int(rs.randint(1, 4)), kmeans0=bool(j % 3), seed=seed + j, max_iter=1 + j % 3,
+                   gauss=True, only_fit=True)
 
 
 def sizes_ok(labels, n, k):
@@ -26,11 +34,21 @@ def check(c):
     n, k = c["n"], c["k"]
     rs = numpy.random.RandomState(c["seed"] * 1000 + n * 10 + k)
     X = numpy.round(rs.rand(n, c["d"]) * 10, 1)
+    if c.get("gauss"):
+        X = rs.randn(n, c["d"])
+        if c["seed"] % 2:
+            X = numpy.round(X * 2) / 2     # ties
     if n > 3:
         X[1] = X[0]                    # duplicates
     numpy.random.seed(c["seed"] + 1)
-    m = ConstraintKMeans(n_clusters=k, strategy=c["strategy"], kmeans0=c["kmeans0"], random_state=c["seed"], max_iter=20)
-    m.fit(X)
+    m = ConstraintKMeans(n_clusters=k, strategy=c["strategy"], kmeans0=c["kmeans0"], random_state=c["seed"], max_iter=c.get("max_iter", 20))
+    try:
+        m.fit(X)
+    except AssertionError as e:
+        if c["strategy"] == "gain" and str(e).startswith("The algorithm failed, counters="):
+            # known finding: a cluster stays under its quota because the points that could fill it were already flagged as moved
+            return dict(**{"class": "gain-assert-under-filled-cluster"}, what="n=%d k=%d strategy=gain kmeans0=%s: fit raises AssertionError %s" % (n, k, c["kmeans0"], e))
+        raise
     lab = numpy.asarray(m.labels_)
     if lab.shape != (n,) or lab.min() < 0 or lab.max() >= k:
         return dict(**{"class": "labels-invalid"}, what="labels %r" % lab.tolist())
@@ -42,6 +60,8 @@ def check(c):
         return dict(**{"class": "n_iter"}, what="n_iter_=%r max_iter=%r" % (m.n_iter_, m.max_iter))
     if not numpy.all(numpy.isfinite(m.cluster_centers_)):
         return dict(**{"class": "centres-not-finite"}, what="non-finite centre")
+    if c.get("only_fit"):
+        return None
     Q = numpy.round(rs.rand(max(n, k + 1), c["d"]) * 10, 1)
     near = m.predict(Q)
     dist = ((Q[:, None, :] - m.cluster_centers_[None, :, :]) ** 2).sum(axis=2)
@@ -66,7 +86,7 @@ def replay(cex):
             f = check(c)
         except Exception as e:
             f = dict(**{"class": "exception:" + type(e).__name__}, what=str(e))
-        if f is not None and f.get("class") != "sizes-gain-n-mod-k-ge-2":
+        if f is not None and f.get("class") not in ("sizes-gain-n-mod-k-ge-2", "gain-assert-under-filled-cluster"):
             return dict(fails=True, observed=f, lifted_case=c)
     return dict(fails=False, note="no failing input (other than the known finding) on the quick domain")
 
